@@ -89,6 +89,10 @@ type ChunkSpec struct {
 	// OutPtr: the caller passes ReadFile a pointer to its own struct (records are
 	// decoded in place) instead of a struct value.
 	OutPtr bool `json:"out_ptr,omitempty"`
+	// Project: which struct the caller reads into: 0 the full type; 1 every
+	// second field dropped (skip paths); 2 fields in reverse order plus a field
+	// the file does not have; 3 a struct with no fields (everything skipped).
+	Project int `json:"project,omitempty"`
 }
 
 // openReader builds the reader a ChunkSpec describes over data.
@@ -128,6 +132,9 @@ func genChunks(r *Rng) ChunkSpec {
 		c.Kind = r.Pick([]string{"bytes.Buffer", "bytes.Reader", "strings.Reader", "bufio"})
 	}
 	c.OutPtr = r.P(1, 3)
+	if r.P(1, 4) {
+		c.Project = r.Range(1, 3)
+	}
 	return c
 }
 
